@@ -209,8 +209,32 @@ def _unsupported(name):
     return f
 
 
-_MATH_PATCH = {'sqrt': _sqrt, 'acos': _acos, 'asin': _asin, 'atan2': _atan2, 'fabs': _fabs}
-for _n in ('atan', 'cos', 'sin', 'tan', 'log10', 'log', 'floor', 'ceil', 'hypot', 'degrees', 'radians', 'isclose',
+def _trig(name):
+    """cos / sin / tan of an inverse-trigonometric value are algebraic: cos(acos x) = x, sin(acos x) = sqrt(1 - x^2), ...;
+    of anything else symbolic: unsupported"""
+    real = _M[name]
+
+    def cs(a):
+        if isinstance(a, SymAcos):
+            co = _sqrt(1 - a.x * a.x)
+            return (a.x, co) if a.kind == 'acos' else (co, a.x)
+        if isinstance(a, SymAngle):
+            r = _sqrt(a.x * a.x + a.y * a.y)
+            return a.x / r, a.y / r
+        raise Unsupported('math.%s on a symbolic value' % name)
+
+    def f(a):
+        if not _symbolic(a):
+            return real(a)
+        c, s_ = cs(a)
+        return c if name == 'cos' else s_ if name == 'sin' else s_ / c
+    f.__name__ = name
+    return f
+
+
+_MATH_PATCH = {'sqrt': _sqrt, 'acos': _acos, 'asin': _asin, 'atan2': _atan2, 'fabs': _fabs, 'cos': _trig('cos'), 'sin': _trig('sin'),
+               'tan': _trig('tan')}
+for _n in ('atan', 'log10', 'log', 'floor', 'ceil', 'hypot', 'degrees', 'radians', 'isclose',
            'exp', 'pow'):
     _MATH_PATCH[_n] = _unsupported(_n)
 
